@@ -132,13 +132,26 @@ def verdictFields (v : Verdict) (dom : Bool) : List (String × Json) :=
   [("spec_ok", !dom || v.ok), ("in_domain", dom),
    ("known", toJson (if v.unexplained then ([] : List String) else v.known)), ("why", v.why)]
 
+/-- The hypotheses of `ordered_disjoint_inline_partial` and `covers_lexeme_partial`
+    (HL/Props/C17.lean) evaluated on this lexer output: when they hold the theorems say the model's
+    tokens pass the validators (so `hyp_ok → spec_ok` on every case where model = impl). -/
+def hypOk (d : LDoc) : Bool :=
+  let cls := d.cls
+  spacedB cls d.toks && inlineB (lineLens16 d.text) cls d.toks &&
+  (tokenizeSrc cls d.toks).all fun (s, t) =>
+    if t.ty == .comment && !(extractTags cls t).isEmpty then
+      !devTagBytes t (s.col.toNat + s.len.toNat - t.pos.col) && !devNonBmpBefore d.text t.stop.off
+    else faithful d.text t
+
 def tokens (j : Json) : Json :=
   let d := parseDoc (jget j "doc")
   let data := if d.text.isEmpty then [] else encodeTokens (cfg.tok d)
   let impl := implData j "impl"
   let dom := inDomain d.text
   let v := judge d impl
-  Json.mkObj ([("model", dataJ data), ("nontrivial", dom && !impl.isEmpty && v.ok)] ++ verdictFields v dom)
+  let hyp := hypOk d
+  Json.mkObj ([("model", dataJ data), ("nontrivial", dom && !impl.isEmpty && v.ok && hyp),
+    ("hyp_ok", hyp)] ++ verdictFields v dom)
 
 def absJ (a : AbsTok) : Json := natArr [a.line, a.start, a.len, a.ty, a.mods]
 
